@@ -54,8 +54,12 @@ TEXT = {
         note=TRUST + 'Float arithmetic is compared bit for bit, never reasoned about.'),
     'C07': dict(technique=WL,
         text='Core: c07_release_enabled_iff, c07_release_finishes, c07_done_absorbing, c07_release_once (no double release, release only when held). '
-             'Ownership rules of the guard classes: executable client model compared with the classes + ownership ghost monitor (found F1).',
-        note=TRUST + 'Guard-class layer has no theorem.'),
+             'Guard classes of PessimisticLock / OptimisticLock: inductive guard-algebra invariant of the client model WClient for every well-typed program '
+             '(any number of threads, locks, guard variables; all 17 instructions) and every schedule (step_inv, runSched_inv): c07_client_owner_holds(_at_boundary), '
+             'c07_client_one_owner, c07_client_optguard_owns_nothing, c07_client_no_orphan, c07_client_quiescent, c07_client_release_enabled, c07_client_step_enabled; '
+             'the premise WF is executable (wfB, wfB_sound) and evaluated on every replayed scenario. The client model is the one compared quantum by quantum with the real guard classes; '
+             'operator bool is additionally compared with an API-level ownership ghost (found F1).',
+        note=TRUST + 'Guard classes of MCSLock (MClient) and the version fields of the guards have no theorem (correspondence + monitors).'),
     'C08': dict(technique=WL + '; vector-clock happens-before invariant',
         text='c08_pess / c08_opt: with the regenerated order table (Adequate closed by rfl: c08_*_orders) every granted section is above every ended conflicting section in the vector-clock semantics; '
              'c08_mcs_orders + hb monitor on all traces for MCS (found F5).',
@@ -75,7 +79,9 @@ TEXT = {
         text='c12_mcs_no_use_after_free, c12_mcs_live_nodes_accounted (every live node is a cached spare or the node of an unfinished request), c12_mcs_no_leak_at_quiescence — every reachable state; c12_unlockS_recycle_test etc.; alloc/free accounting monitor on implementation traces (found F2).',
         note=TRUST),
     'C13': dict(technique=WL,
-        text='c13_version_result (non-owning result read from a word without X), c13_shared_fallback / c13_cas_from_noX (owning result by CAS from a word with no X). Prepare monitor on traces.',
+        text='c13_version_result (non-owning result read from a word without X), c13_shared_fallback / c13_cas_from_noX (owning result by CAS from a word with no X); '
+             'c13_client_owning_composite_holds_shared: in every reachable state of the client model an owning CompositeGuard points at a request holding S on its lock, exclusively '
+             '(guard algebra, C07). Prepare monitor, composite-guard validation monitor and guard-level monitors on traces.',
         note=TRUST),
     'C14': dict(technique=TH,
         text='c14_all_exited_all_free, c14_flag_has_holder, c14_release_clears, c14_solo_claim_succeeds; c14_claim_returns: bounded waiting under every interleaving - with at least as many free IDs as '
